@@ -234,4 +234,72 @@ theorem normObject_sem (sig : Sig) (w : Bool) (fs : List (Nat × Nat)) (ws : Lis
       cases smatch sig p t wv <;> cases smatchObject sig fs ws es names <;> simp
 end
 
+
+/-! ### column placement of object patterns -/
+
+theorem normObject_length (sig : Sig) (w : Bool) (fs : List (Nat × Nat)) :
+    ∀ (es : List SPat) (names : List Nat) (acc : List Pat),
+      (normObject sig w fs es names acc).pats.length = acc.length
+  | [], _, acc => by simp [normObject]
+  | _ :: _, [], acc => by simp [normObject]
+  | p :: es, name :: names, acc => by
+    simp only [normObject]
+    cases hf : fieldIndex fs name with
+    | none => simp [normObject_length sig w fs es names]
+    | some it => obtain ⟨i, t⟩ := it; simp [normObject_length sig w fs es names]
+
+/-- positions that no remaining element names keep their accumulator entry -/
+theorem normObject_other (sig : Sig) (w : Bool) (fs : List (Nat × Nat)) :
+    ∀ (es : List SPat) (names : List Nat) (acc : List Pat) (j : Nat),
+      (∀ name ∈ names, fieldIndex fs name ≠ none) →
+      (∀ name ∈ names, ∀ i t, fieldIndex fs name = some (i, t) → i ≠ j) →
+      (normObject sig w fs es names acc).pats[j]? = acc[j]?
+  | [], _, acc, j, _, _ => by simp [normObject]
+  | _ :: _, [], acc, j, _, _ => by simp [normObject]
+  | p :: es, name :: names, acc, j, hk, hne => by
+    simp only [normObject]
+    cases hf : fieldIndex fs name with
+    | none => exact absurd hf (hk name (by simp))
+    | some it =>
+      obtain ⟨i, t⟩ := it
+      simp only
+      rw [normObject_other sig w fs es names _ j (fun n hn => hk n (by simp [hn]))
+        (fun n hn i' t' h => hne n (by simp [hn]) i' t' h)]
+      exact List.getElem?_set_ne (hne name (by simp) i t hf)
+
+/-- **Column placement**: in the abstract node of an object pattern, the sub-pattern written for
+field `name` sits in the column of the field's *declaration index* (`fieldIndex`), wherever it was
+written (main_checker.rs:1320 `abstract_pattern_nodes[*field_order] = abstract_node`). -/
+theorem normObject_column (sig : Sig) (w : Bool) (fs : List (Nat × Nat)) :
+    ∀ (es : List SPat) (names : List Nat) (acc : List Pat) (k : Nat) (name : Nat) (p : SPat) (i t : Nat),
+      nodupNat names = true → (∀ n ∈ names, fieldIndex fs n ≠ none) →
+      names[k]? = some name → es[k]? = some p → fieldIndex fs name = some (i, t) → i < acc.length →
+      (normObject sig w fs es names acc).pats[i]? = some (normalize sig w p (some t)).pat
+  | [], _, acc, k, name, p, i, t, _, _, _, he, _, _ => by simp at he
+  | _ :: _, [], acc, k, name, p, i, t, _, _, hn, _, _, _ => by simp at hn
+  | q :: es, n0 :: names, acc, 0, name, p, i, t, hnd, hk, hn, he, hf, hi => by
+    simp only [List.getElem?_cons_zero, Option.some.injEq] at hn he
+    subst hn; subst he
+    simp only [nodupNat, Bool.and_eq_true, Bool.not_eq_true'] at hnd
+    simp only [normObject, hf]
+    rw [normObject_other sig w fs es names _ i (fun n hn => hk n (by simp [hn])) (by
+      intro n hn i' t' h e
+      subst e
+      have := fieldIndex_inj fs n0 n i' t t' hf h
+      subst this
+      have hc : names.contains n0 = true := by simpa using hn
+      rw [hnd.1] at hc; cases hc)]
+    simp [List.getElem?_set_self hi]
+  | q :: es, n0 :: names, acc, k + 1, name, p, i, t, hnd, hk, hn, he, hf, hi => by
+    simp only [nodupNat, Bool.and_eq_true, Bool.not_eq_true'] at hnd
+    simp only [List.getElem?_cons_succ] at hn he
+    simp only [normObject]
+    cases hf0 : fieldIndex fs n0 with
+    | none => exact absurd hf0 (hk n0 (by simp))
+    | some it =>
+      obtain ⟨i0, t0⟩ := it
+      simp only
+      exact normObject_column sig w fs es names _ k name p i t hnd.2 (fun n hn => hk n (by simp [hn]))
+        hn he hf (by simpa using hi)
+
 end SamVerif.Useful
